@@ -40,6 +40,16 @@ func anyEqual(got []ev.Event, wants [][]ev.Event) bool {
 func extEncode(h *rt.H, c *codec) {
 	k := h.Choose("ext", 0, numExtEvents-1)
 	n := h.Choose("n", 0, h.Param("N", 2))
+	// NBIG: array events (0..14) with lengths around the points where the length
+	// prefix of CBOR (23/24) and of CBOR/UBJSON (255/256) changes width
+	eo := extOptsFor(c)
+	if nb := h.Param("NBIG", 0); nb > 0 {
+		h.Assume(k >= 2 && k <= 12) // the integer arrays and OnBytes
+		n = [][]int{{23, 24, 25}, {255, 256}}[nb-1][h.Choose("nbig", 0, 2-(nb-1))]
+		// one-digit non-negative elements: no fork per element (the element encodings
+		// are the subject of the short arrays)
+		eo.maxUint, eo.maxAbs, eo.nonNeg = 9, 9, true
+	}
 	ctx := h.Choose("ctx", 0, 2)
 	out := &sink{}
 	enc := structform.EnsureExtVisitor(c.newVisitor(out))
@@ -57,7 +67,7 @@ func extEncode(h *rt.H, c *codec) {
 		pre = []ev.Event{{K: ev.ObjStart}, {K: ev.Key, Str: []byte("x")}}
 	}
 	h.Assert("prefix-encoded", err == nil)
-	exps, err := extEvent(h, k, n, enc, extOptsFor(c))
+	exps, err := extEvent(h, k, n, enc, eo)
 	h.Assert("encoded", err == nil)
 	tail := int8(h.U8("tail"))
 	if c == jsonCodec {
